@@ -5,6 +5,7 @@ package main
 import (
 	"fmt"
 	"go/types"
+	"sort"
 	"strings"
 
 	"golang.org/x/tools/go/ssa"
@@ -561,6 +562,9 @@ func (x *fnExec) invoke(fr *frame, st *State, ci ssa.CallInstruction, res ssa.Va
 		x.obligation(st, x.safetyName("nil"), "safe", "method call on nil interface at "+x.P.Fset.Position(ci.Pos()).String()+" in "+funcKey(fr.fn), nil, g, nil, "")
 		x.assume(st, g)
 	}
+	if owner == "github.com/pion/sctp" && x.devirtualise(fr, st, ci, res, recv, args, fresh) {
+		return
+	}
 	e := &effectSet{keys: map[string]bool{}}
 	x.P.invokeEffects(cc, e)
 	if owner != "github.com/pion/sctp" {
@@ -667,4 +671,160 @@ func (x *fnExec) atStore(fr *frame, st *State, s *ssa.Store, p Val, v Val) {
 		o := x.obligation(st, fr.C.Key+":at store "+ac.Callee+":assert#"+clp.Label, "assert", "store at "+x.P.Fset.Position(pos).String(), clauseTags(fr.C, clp), goal, hyp, clp.Src)
 		o.skolems = sk
 	}
+}
+
+// possibleTags returns the literal type tags a tag term can take (ite tree over literals), or false.
+func possibleTags(t *Term, out map[int]*Term) bool {
+	switch t.Op {
+	case "lit":
+		out[t.id] = t
+		return true
+	case "ite":
+		return possibleTags(t.Args[1], out) && possibleTags(t.Args[2], out)
+	}
+	return false
+}
+
+// devirtualise resolves an interface method call whose receiver's dynamic type is known (a finite set of
+// in-package types) into static calls of the implementing methods, one per possible type, and merges the results.
+func (x *fnExec) devirtualise(fr *frame, st *State, ci ssa.CallInstruction, res ssa.Value, recv Val, args []Val, fresh func(string) Val) bool {
+	cc := ci.Common()
+	tags := map[int]*Term{}
+	if !possibleTags(recv.Fs[0].T, tags) || len(tags) == 0 || len(tags) > 24 {
+		// closed world: an interface with unexported methods can only be implemented inside the package
+		tags = map[int]*Term{}
+		iface, _ := cc.Value.Type().Underlying().(*types.Interface)
+		if iface == nil || cc.Method.Exported() || ifaceExported(cc.Value.Type()) {
+			return false
+		}
+		n := 0
+		for _, m := range x.P.SSA.Members {
+			tn, ok := m.(*ssa.Type)
+			if !ok {
+				continue
+			}
+			for _, t := range []types.Type{types.NewPointer(tn.Type())} {
+				if _, isI := tn.Type().Underlying().(*types.Interface); isI {
+					continue
+				}
+				if types.Implements(t, iface) {
+					// only when every implementation is small enough to be executed inline
+					ms := x.P.Prog.MethodSets.MethodSet(t)
+					sel := ms.Lookup(x.P.Pkg.Types, cc.Method.Name())
+					if sel == nil {
+						return false
+					}
+					f := x.P.Prog.MethodValue(sel)
+					if f == nil || !x.smallLeaf(f, 0) {
+						return false
+					}
+					tg := x.typeTag(t)
+					tags[tg.id] = tg
+					n++
+				}
+			}
+		}
+		if n == 0 || n > 16 {
+			return false
+		}
+		x.assumed["closed world for interface "+typeName(cc.Value.Type())+": only in-package pointer types implement it (unexported methods)"] = true
+	}
+	type alt struct {
+		tag *Term
+		fn  *ssa.Function
+		rt  types.Type
+	}
+	var alts []alt
+	for _, t := range tags {
+		if t.Lit.Sign() == 0 {
+			continue // nil interface: excluded by the nil-receiver obligation
+		}
+		rt := x.P.tagTypes[int(t.Lit.Int64())]
+		if rt == nil {
+			return false
+		}
+		ms := x.P.Prog.MethodSets.MethodSet(rt)
+		sel := ms.Lookup(x.P.Pkg.Types, cc.Method.Name())
+		if sel == nil {
+			sel = ms.Lookup(nil, cc.Method.Name())
+		}
+		if sel == nil {
+			return false
+		}
+		f := x.P.Prog.MethodValue(sel)
+		if f == nil || len(f.Blocks) == 0 {
+			return false
+		}
+		alts = append(alts, alt{t, f, rt})
+	}
+	if len(alts) == 0 {
+		return false
+	}
+	sort.Slice(alts, func(i, j int) bool { return alts[i].tag.Lit.Cmp(alts[j].tag.Lit) < 0 })
+	var conds []*Term
+	var sts []*State
+	var vals []Val
+	for _, a := range alts {
+		s := st.clone()
+		s.pc = And(st.pc, Eq(recv.Fs[0].T, a.tag))
+		if s.pc == False {
+			continue
+		}
+		var rv Val
+		switch u := a.rt.Underlying().(type) {
+		case *types.Pointer:
+			rv = Val{K: VPtr, Prefix: canonPrefix(u.Elem()), Ref: recv.Fs[1].T, Ty: a.rt}
+		default:
+			return false // value receivers boxed in interfaces are not tracked
+		}
+		x.staticCall(fr, s, ci, res, a.fn, append([]Val{rv}, args...), fresh)
+		if s.pc == False {
+			continue
+		}
+		conds = append(conds, s.pc)
+		sts = append(sts, s)
+		if res != nil {
+			vals = append(vals, fr.env[res])
+		}
+	}
+	if len(sts) == 0 {
+		st.pc = False
+		x.setResult(fr, res, fresh("noreturn"))
+		return true
+	}
+	m := mergeStates(conds, sts)
+	st.pc, st.heap, st.epoch = m.pc, m.heap, m.epoch
+	if res != nil {
+		v := vals[len(vals)-1]
+		for i := len(vals) - 2; i >= 0; i-- {
+			v = iteVal(conds[i], vals[i], v)
+		}
+		fr.env[res] = v
+	}
+	return true
+}
+
+// smallLeaf reports whether fn (and the static callees it reaches) is loop-free and tiny.
+func (x *fnExec) smallLeaf(fn *ssa.Function, depth int) bool {
+	if depth > 3 || len(fn.Blocks) == 0 || instrCount(fn) > 40 || len(findLoops(fn)) > 0 {
+		return false
+	}
+	for _, b := range fn.Blocks {
+		for _, in := range b.Instrs {
+			switch t := in.(type) {
+			case *ssa.Go, *ssa.Select, *ssa.Send, *ssa.MakeClosure, *ssa.Defer:
+				return false
+			case *ssa.Call:
+				if t.Call.IsInvoke() {
+					return false
+				}
+				if f := t.Call.StaticCallee(); f != nil && x.P.inPackage(f) {
+					if !x.smallLeaf(f, depth+1) {
+						return false
+					}
+				}
+			}
+		}
+	}
+	return true
 }
